@@ -230,10 +230,10 @@ impl Restorer {
                     assert!(restore_metadata.replace((restore_path.clone(), metadata)).is_none());
                 } else {
                     self.pre_created_directories.extend(util::restore_directories(restore_dir, path)?);
-                    self.restored_extern_files.insert(self.pending_extern_files.take(path).unwrap());
+                    self.mark_extern_file_restored(source_path, path)?;
                 }
             } else {
-                self.restored_extern_files.insert(self.pending_extern_files.take(path).unwrap());
+                self.mark_extern_file_restored(source_path, path)?;
             }
 
             let mut file = OpenOptions::new()
@@ -278,6 +278,13 @@ impl Restorer {
             metadata.set(&path)?;
         }
 
+        Ok(())
+    }
+
+    fn mark_extern_file_restored(&mut self, source_path: &Path, path: &Path) -> EmptyResult {
+        let path = self.pending_extern_files.take(path).ok_or_else(|| format!(
+            "The backup archive has several {:?} entries", source_path))?;
+        self.restored_extern_files.insert(path);
         Ok(())
     }
 
